@@ -486,6 +486,12 @@ pub fn corpus() -> Vec<Item> {
             push(format!("rows/type{ti}/{nrows}"), Response::Result(ResultBody::Rows(Rows { meta: meta(cols), rows })), 0, 0);
         }
     }
+    // one frame well above the 32 KiB initial body capacity of the frame reader (growth path, chunked reads)
+    {
+        let cols = vec![col("big", n(native::BLOB)), col("k", n(native::INT))];
+        let big: Vec<u8> = (0..100_000u32).map(|x| (x * 31 % 251) as u8).collect();
+        push("rows/bigcell".into(), Response::Result(ResultBody::Rows(Rows { meta: meta(cols), rows: vec![vec![Some(big), Some(vec![0, 0, 0, 1])], vec![None, None]] })), 0, 0);
+    }
     // odd but valid class strings
     for (i, (cls, _)) in odd_class_strings().into_iter().enumerate() {
         let cols = vec![col("c", Ty::CustomRaw(cls))];
